@@ -5,16 +5,20 @@ RATE_KINDS = ('linear', 'mass', 'saturating', 'exp', 'periodic')
 
 
 def random_spec(rng, n_states=None, n_events=None, ode_terms=False, derived=False, range_names=False,
-                transition_only=False, integer_magnitudes=False, bounded=False):
+                transition_only=False, integer_magnitudes=False, bounded=False, short_names=False):
     nS = n_states or int(rng.randint(1, 5))
     if range_names and nS >= 2:
         states = ['y%d' % (i + 1) for i in range(nS)]
         state_decl = ['y1:%d' % (nS + 1)]
+    elif short_names:
+        # one-letter lower-case names, the kind a loop variable or a temporary inside the library might also have
+        states = ['s', 'i', 'r', 'v', 'w'][:nS]
+        state_decl = list(states)
     else:
         states = ['S', 'I', 'R', 'V', 'W'][:nS]
         state_decl = list(states)
     nP = int(rng.randint(1, 5))
-    params = ['p%d' % i for i in range(nP)]
+    params = ['p%d' % i for i in range(nP)] if not short_names else ['k', 'n', 'j', 'm'][:nP]
     nE = n_events if n_events is not None else int(rng.randint(1, 5))
     events = []
     for e in range(nE):
